@@ -18,12 +18,17 @@ translator dumps from the live classes (`Gen/LrTables.lean`, regenerated on ever
                            `Gen/Grammar.lean`, so the automaton and the `C12_cfg*` theorems talk about one grammar;
 * `C12LR_montepy`          the instance: whatever a MontePy parser class accepts is a sentence (`Cfg.Der`) of its
                            extracted grammar — conflict resolution can only REMOVE sentences, never add any;
+* `C12LR_rightmost`        the reduction sequence of an accepting run is a right-most derivation of the input from
+                           the start symbol, read backwards (any tables that pass the test);
+* `C12LR_complete_flat_geometry`  completeness on a regular fragment, ANY length: void cells whose geometry is a
+                           parenthesis-free list of surfaces / `#n` joined by a blank or by `:` are accepted by the
+                           extracted CellParser automaton (frame property + a kernel-evaluated closed set of stacks);
 * `C12LR_deterministic`, `C12LR_fuel`   the machine is a function; fuel never changes an answer;
 * `C12LR_defaulted`, `C12LR_error_hook` the dumped `defaulted_states` are what the model computes from the rows; no
                            grammar has an `error` production and the `error` hook is `MCNP_Parser.error` (so the
                            first syntax error is final: `MCNP_Parser.parse` returns `None` once the log is non-empty).
 
-NOT proved: completeness (every G sentence is accepted by the automaton).  See `design_notes/LR.md`.
+NOT proved: completeness on all of G (every G sentence is accepted by the automaton).  See `design_notes/LR.md`.
 -/
 namespace MontePyVerif.C12LR
 open MontePyVerif MontePyVerif.LR MontePyVerif.Gen
@@ -166,5 +171,203 @@ example : Cfg.Der Grammar.cellParser.productions "cell" (exampleCellTokens.map (
 /-- the machine rejects too: the same card without its geometry stops at the KEYWORD (13 tokens unread) -/
 example : parse (ofDump LrTables.cellParser) 200 ([20, 31, 20, 31, 20, 31] ++ exampleCellTokens.drop 15) =
     .reject [93, 75, 93, 75, 93, 83] 13 := by decide +kernel
+
+/-! ## the reductions are a right-most derivation -/
+
+theorem C12LR_rightmost : ∀ (t : Tables), TablesOK t → ∀ toks ps : List Nat, 0 ∉ toks →
+    Run t (init toks) (.accept ps) → RmDeriv t ps [t.start] toks :=
+  fun _ hok _ _ h0 hr => accepted_rightmost hok h0 hr
+
+example : RmDeriv (ofDump LrTables.cellParser) exampleCellReductions [LrTables.cellParser.start] exampleCellTokens :=
+  C12LR_rightmost _ ⟨_, ok_cell⟩ _ _ (by decide) (run_sound _ 200 _ _ exampleCell_parse (by simp))
+
+/-! ## completeness on a regular fragment: void cells with a parenthesis-free geometry
+
+`NUMBER SPACE NULL SPACE atom (sep atom)*` with `atom ∈ {NUMBER, COMPLEMENT NUMBER}` (a signed surface number, or
+`#n`) and `sep ∈ {SPACE, ':', SPACE ':', ':' SPACE, SPACE ':' SPACE}` (intersection by one blank, union with
+optional single blanks) — ANY number of atoms — is accepted by the extracted CellParser automaton.
+
+Method: the machine reads the first unread token only (`stepsN_frame`), so a block `sep atom` followed by the
+lookahead `la'` takes a *settled* configuration (stack, lookahead) to another one whatever follows.  `geoStates` is a
+finite set of settled configurations closed under all blocks (`geoClosed`, evaluated by the kernel over the extracted
+tables); the theorem is an induction on the list of blocks. -/
+
+def cellT : Tables := ofDump LrTables.cellParser
+
+/-- token ids of the CellParser dump (checked against the name table below) -/
+def tNUMBER : Nat := 20
+def tSPACE : Nat := 31
+def tNULL : Nat := 19
+def tCOLON : Nat := 6
+def tCOMPLEMENT : Nat := 9
+
+theorem geo_token_names : [tNUMBER, tSPACE, tNULL, tCOLON, tCOMPLEMENT].map (symName LrTables.cellParser) =
+    ["NUMBER", "SPACE", "NULL", ":", "COMPLEMENT"] := by decide
+
+def geoAtoms : List (List Nat) := [[tNUMBER], [tCOMPLEMENT, tNUMBER]]
+def geoSeps : List (List Nat) := [[tSPACE], [tCOLON], [tSPACE, tCOLON], [tCOLON, tSPACE], [tSPACE, tCOLON, tSPACE]]
+/-- a block: a separator and the atom after it -/
+def geoBlocks : List (List Nat) := geoSeps.flatMap fun s => geoAtoms.map fun a => s ++ a
+def geoLas : List Nat := [tSPACE, tCOLON]
+def geoPrefix : List Nat := [tNUMBER, tSPACE, tNULL, tSPACE]
+
+/-- settled configurations (state stack, the lookahead it was settled for) after an atom -/
+def geoStates : List (List Nat × Nat) :=
+  [([28, 17, 4, 0], tSPACE), ([27, 17, 4, 0], tCOLON), ([68, 39, 27, 17, 4, 0], tSPACE)]
+
+/-- number of steps until `w` is consumed and the machine is about to shift the token after it -/
+def settleN (t : Tables) : Nat → Config → Nat → Option Nat
+  | 0, _, _ => none
+  | f + 1, c, n =>
+    match step t c with
+    | .shift c' => if c.input.length ≤ 1 then some n else settleN t f c' (n + 1)
+    | .reduce _ c' => settleN t f c' (n + 1)
+    | _ => none
+
+/-- from stack `G`, the word `w` followed by lookahead `la'` leads to a settled configuration of `S` -/
+def blockOK (t : Tables) (S : List (List Nat × Nat)) (G w : List Nat) (la' : Nat) : Bool :=
+  match settleN t 80 ⟨G, w ++ [la']⟩ 0 with
+  | none => false
+  | some n =>
+    match stepsN t n ⟨G, w ++ [la']⟩ with
+    | some (c', _) => c'.input == [la'] && S.contains (c'.stack, la')
+    | none => false
+
+theorem blockOK_spec {t : Tables} {S : List (List Nat × Nat)} {G w : List Nat} {la' : Nat}
+    (h : blockOK t S G w la' = true) :
+    ∃ n G' reds, stepsN t n ⟨G, w ++ [la']⟩ = some (⟨G', [la']⟩, reds) ∧ (G', la') ∈ S := by
+  unfold blockOK at h
+  split at h
+  · cases h
+  · next n _ =>
+    split at h
+    · next c' reds hs =>
+      simp only [Bool.and_eq_true, beq_iff_eq, List.contains_iff_mem] at h
+      obtain ⟨stk, inp⟩ := c'
+      simp only at h
+      obtain ⟨rfl, hm⟩ := h
+      exact ⟨n, stk, reds, hs, hm⟩
+    · cases h
+
+def accepts (t : Tables) (c : Config) : Bool := match run t 200 c with | .accept _ => true | _ => false
+
+theorem accepts_run {t : Tables} {c : Config} (h : accepts t c = true) : ∃ ps, Run t c (.accept ps) := by
+  unfold accepts at h
+  split at h
+  · next ps hr => exact ⟨ps, run_sound t 200 c _ hr (by simp)⟩
+  · cases h
+
+/-- the closure test: every block that starts with the lookahead a state was settled for leads into `geoStates`
+    for both possible next lookaheads, and is accepted when nothing follows -/
+def geoClosed : Bool :=
+  geoStates.all fun s => geoBlocks.all fun b =>
+    b.head? != some s.2 || (geoLas.all (fun la' => blockOK cellT geoStates s.1 b la') && accepts cellT ⟨s.1, b⟩)
+
+theorem geoClosed_ok : geoClosed = true := by decide +kernel
+
+/-- the card up to its first atom -/
+def geoStart : Bool :=
+  geoAtoms.all fun a => accepts cellT (init (geoPrefix ++ a)) &&
+    geoLas.all fun la => blockOK cellT geoStates [0] (geoPrefix ++ a) la
+
+theorem geoStart_ok : geoStart = true := by decide +kernel
+
+theorem geoBlock_head {b : List Nat} (hb : b ∈ geoBlocks) : ∃ la rest, b = la :: rest ∧ la ∈ geoLas := by
+  simp only [geoBlocks, geoSeps, geoAtoms, List.flatMap_cons, List.flatMap_nil, List.map_cons, List.map_nil,
+    List.cons_append, List.nil_append, List.append_nil, List.mem_cons, List.not_mem_nil, or_false] at hb
+  rcases hb with rfl | rfl | rfl | rfl | rfl | rfl | rfl | rfl | rfl | rfl <;>
+    exact ⟨_, _, rfl, by simp [geoLas]⟩
+
+theorem prepend_accept (reds ps : List Nat) : Res.prepend reds (.accept ps) = .accept (reds ++ ps) := by
+  induction reds with
+  | nil => rfl
+  | cons p reds ih => simp only [Res.prepend, List.foldr_cons] at ih ⊢; rw [ih]; rfl
+
+/-- a block followed by more input: the frame property applied to `blockOK` -/
+theorem block_then {S : List (List Nat × Nat)} {G w : List Nat} {la' : Nat} (h : blockOK cellT S G w la' = true)
+    (rest : List Nat) :
+    ∃ G', (G', la') ∈ S ∧ ∀ ps, Run cellT ⟨G', la' :: rest⟩ (.accept ps) →
+      ∃ ps', Run cellT ⟨G, w ++ la' :: rest⟩ (.accept ps') := by
+  obtain ⟨n, G', reds, hs, hm⟩ := blockOK_spec h
+  refine ⟨G', hm, fun ps hr => ?_⟩
+  have hf := stepsN_frame n hs (by simp) rest
+  have := run_of_stepsN n hf (by simpa using hr)
+  rw [prepend_accept] at this
+  exact ⟨_, by simpa [List.append_assoc] using this⟩
+
+/-- from a settled configuration, any non-empty sequence of blocks whose first token is the settled lookahead is accepted -/
+theorem geo_blocks_accepted : ∀ (bs : List (List Nat)), (∀ b ∈ bs, b ∈ geoBlocks) → bs ≠ [] → ∀ (G : List Nat) (la : Nat),
+    (G, la) ∈ geoStates → bs.flatten.head? = some la → ∃ ps, Run cellT ⟨G, bs.flatten⟩ (.accept ps) := by
+  intro bs
+  induction bs with
+  | nil => intro _ hne; exact absurd rfl hne
+  | cons b bs ih =>
+    intro hall _ G la hG hhead
+    have hb : b ∈ geoBlocks := hall b List.mem_cons_self
+    obtain ⟨la0, r0, rfl, _⟩ := geoBlock_head hb
+    have hla : la0 = la := by simpa using hhead
+    subst hla
+    have hcl := geoClosed_ok
+    simp only [geoClosed, List.all_eq_true] at hcl
+    have hthis := hcl (G, la0) hG (la0 :: r0) hb
+    simp only [List.head?_cons, bne_self_eq_false, Bool.false_or, Bool.and_eq_true, List.all_eq_true] at hthis
+    obtain ⟨hblocks, hfinal⟩ := hthis
+    cases bs with
+    | nil =>
+      obtain ⟨ps, hr⟩ := accepts_run hfinal
+      exact ⟨ps, by simpa using hr⟩
+    | cons b' bs' =>
+      have hb' : b' ∈ geoBlocks := hall b' (List.mem_cons_of_mem _ List.mem_cons_self)
+      obtain ⟨la', r', rfl, hla'⟩ := geoBlock_head hb'
+      obtain ⟨G', hm, hcont⟩ := block_then (hblocks la' hla') (r' ++ bs'.flatten)
+      obtain ⟨ps, hr⟩ := ih (fun x hx => hall x (List.mem_cons_of_mem _ hx)) (by simp) G' la' hm (by simp)
+      obtain ⟨ps', hr'⟩ := hcont ps (by simpa using hr)
+      exact ⟨ps', by simpa using hr'⟩
+
+/-- **Completeness on the parenthesis-free geometry fragment** (any number of atoms): the extracted CellParser
+    automaton accepts `NUMBER SPACE NULL SPACE atom (sep atom)*`. -/
+theorem C12LR_complete_flat_geometry : ∀ (a : List Nat) (bs : List (List Nat)), a ∈ geoAtoms →
+    (∀ b ∈ bs, b ∈ geoBlocks) → ∃ ps, Run cellT (init (geoPrefix ++ a ++ bs.flatten)) (.accept ps) := by
+  intro a bs ha hall
+  have hst := geoStart_ok
+  simp only [geoStart, List.all_eq_true, Bool.and_eq_true] at hst
+  obtain ⟨hacc, hblk⟩ := hst a ha
+  cases bs with
+  | nil =>
+    obtain ⟨ps, hr⟩ := accepts_run hacc
+    exact ⟨ps, by simpa using hr⟩
+  | cons b' bs' =>
+    have hb' : b' ∈ geoBlocks := hall b' List.mem_cons_self
+    obtain ⟨la', r', rfl, hla'⟩ := geoBlock_head hb'
+    obtain ⟨G', hm, hcont⟩ := block_then (hblk la' hla') (r' ++ bs'.flatten)
+    obtain ⟨ps, hr⟩ := geo_blocks_accepted ((la' :: r') :: bs') hall (by simp) G' la' hm (by simp)
+    obtain ⟨ps', hr'⟩ := hcont ps (by simpa using hr)
+    exact ⟨ps', by simpa [init] using hr'⟩
+
+/-- … and what is accepted is a sentence: these cards are derivable in the extracted grammar, through the automaton -/
+theorem C12LR_flat_geometry_sentences : ∀ (a : List Nat) (bs : List (List Nat)), a ∈ geoAtoms →
+    (∀ b ∈ bs, b ∈ geoBlocks) →
+    Cfg.Der Grammar.cellParser.productions "cell" ((geoPrefix ++ a ++ bs.flatten).map (symName LrTables.cellParser)) := by
+  intro a bs ha hall
+  obtain ⟨ps, hr⟩ := C12LR_complete_flat_geometry a bs ha hall
+  have h0 : 0 ∉ geoPrefix ++ a ++ bs.flatten := by
+    intro hm
+    simp only [List.mem_append, List.mem_flatten] at hm
+    rcases hm with (hm | hm) | ⟨b, hb, hm⟩
+    · simp [geoPrefix, tNUMBER, tSPACE, tNULL] at hm
+    · simp only [geoAtoms, List.mem_cons, List.not_mem_nil, or_false] at ha
+      rcases ha with rfl | rfl <;> simp [tNUMBER, tCOMPLEMENT] at hm
+    · have hb' := hall b hb
+      simp only [geoBlocks, geoSeps, geoAtoms, List.flatMap_cons, List.flatMap_nil, List.map_cons, List.map_nil,
+        List.cons_append, List.nil_append, List.append_nil, List.mem_cons, List.not_mem_nil, or_false] at hb'
+      rcases hb' with rfl | rfl | rfl | rfl | rfl | rfl | rfl | rfl | rfl | rfl <;>
+        simp [tNUMBER, tCOMPLEMENT, tSPACE, tCOLON] at hm
+  exact C12LR_montepy (LrTables.cellParser, Grammar.cellParser) (by simp [classes]) _ ps h0 hr
+
+/-- non-vacuity: `1 0 -1 2:#3 : 4` is in the fragment -/
+example : ∃ ps, Run cellT (init [tNUMBER, tSPACE, tNULL, tSPACE, tNUMBER, tSPACE, tNUMBER, tCOLON, tCOMPLEMENT, tNUMBER,
+    tSPACE, tCOLON, tSPACE, tNUMBER]) (.accept ps) :=
+  C12LR_complete_flat_geometry [tNUMBER] [[tSPACE, tNUMBER], [tCOLON, tCOMPLEMENT, tNUMBER], [tSPACE, tCOLON, tSPACE, tNUMBER]]
+    (by decide) (by decide)
 
 end MontePyVerif.C12LR
